@@ -655,27 +655,35 @@ def softInventory (insts : List Soft) : List SoftInv :=
     | none => { name := s.name, isApp := s.isApp, opts := readAll s.name s.opts, live := 0, running := s.running,
                 health := s.health }   -- unreachable: s itself is there
 
+/-- the request a `services:` entry makes; after the install the `defaults:` section is applied to the new service:
+`service_fix_duration` unless the entry configures its own `fixing_duration` (repaired code), `service_restart_duration` always -/
+def svcReq (d : DefaultsCfg) (c : SwCfg) : SoftReq :=
+  { name := c.type, isApp := false, opts := c.opts, health0 := c.health.getD .good, initStarts := c.initStarts, configured := true,
+    imposedFix := if (alookup "fixing_duration" c.opts).isSome then none else d.svcFix,
+    imposedRestart := d.svcRestart }
+
+/-- the request an `applications:` entry makes -/
+def appReq (c : SwCfg) : SoftReq :=
+  { name := c.type, isApp := true, opts := c.opts, health0 := c.health.getD .good, initStarts := c.initStarts, configured := true }
+
+/-- `_install_system_software`: the class is installed without a configuration -/
+def sysReq (e : String × Bool) : SoftReq := { name := e.1, isApp := e.2, opts := [] }
+
+/-- the `FTPClient` that `DatabaseService.install()` installs (its `__init__` starts it) -/
+def ftpAuto : SoftReq := { name := "ftp-client", isApp := false, opts := [], initStarts := true }
+
 /-- the `services:` loop: `software_manager.install(cls, options)`; `DatabaseService.install()` additionally installs an
-`FTPClient` (whose `__init__` starts it) when `software.get("ftp-client")` is empty at that moment. `seen` = names registered so
-far. After the install the `defaults:` section is applied to the new service: `service_fix_duration` unless the entry configures
-its own `fixing_duration` (repaired code), `service_restart_duration` always. -/
+`FTPClient` when `software.get("ftp-client")` is empty at that moment. `seen` = names registered so far. -/
 def installServices (d : DefaultsCfg) (seen : List String) : List SwCfg → List SoftReq
   | [] => []
   | c :: rest =>
-    let s : SoftReq := { name := c.type, isApp := false, opts := c.opts, health0 := c.health.getD .good,
-                         initStarts := c.initStarts, configured := true,
-                         imposedFix := if (alookup "fixing_duration" c.opts).isSome then none else d.svcFix,
-                         imposedRestart := d.svcRestart }
     if c.type = "database-service" ∧ "ftp-client" ∉ seen then
-      s :: { name := "ftp-client", isApp := false, opts := [], initStarts := true } :: installServices d ("ftp-client" :: c.type :: seen) rest
-    else s :: installServices d (c.type :: seen) rest
+      svcReq d c :: ftpAuto :: installServices d ("ftp-client" :: c.type :: seen) rest
+    else svcReq d c :: installServices d (c.type :: seen) rest
 
 /-- every `install()` of a node in call order: `_install_system_software`, the `services:` loop, the `applications:` loop. -/
 def installRequests (d : DefaultsCfg) (k : Kind) (n : NodeCfg) : List SoftReq :=
-  (systemSoftware k).map (fun (nm, app) => { name := nm, isApp := app, opts := [] })
-    ++ installServices d ((systemSoftware k).map (·.1)) n.services
-    ++ n.applications.map (fun c => { name := c.type, isApp := true, opts := c.opts, health0 := c.health.getD .good,
-                                      initStarts := c.initStarts, configured := true })
+  (systemSoftware k).map sysReq ++ installServices d ((systemSoftware k).map (·.1)) n.services ++ n.applications.map appReq
 
 /-- the instances those calls create, each after its own constructor / install / loader start, on a node whose operating state
 is `p` throughout loading -/
@@ -1080,6 +1088,71 @@ def declared (s : Scenario) : Inventory :=
   { nodes := (declaredNodes s).map (declaredWiring ((declaredSetLinks s).map linkCfgOf ++ s.links)),
     links := declaredSetLinks s ++ s.links.map declaredLink,
     agents := s.agents.map agentOf, game := gameOf s.game, airspace := declaredAirspace s.airspace }
+
+/-! ## the specification, written from the documentation alone
+
+`declared` above is the closed form of the loader and shares two helpers with it: the list of install requests and the sort of the
+extra NICs. `spec` shares neither: software is described as a SET of names, each with the options of the LAST entry that names it;
+extra NICs as a lookup, "NIC number k carries the entry under key k". `Props/C20Spec.lean` proves `declared ≃ spec` (software up
+to order), so a mistake in a shared helper cannot hide behind `build = declared`. -/
+
+/-- keep one copy of every name (which copy does not matter: lists of names are compared up to order) -/
+def dedupNames : List String → List String
+  | [] => []
+  | a :: l => if a ∈ l then dedupNames l else a :: dedupNames l
+
+/-- the last entry of type `name` in a `services:` / `applications:` list -/
+def lastCfg (name : String) (l : List SwCfg) : Option SwCfg := l.reverse.find? (·.type = name)
+
+/-- every piece of software the node carries: what its type pre-installs, what the file lists, and the FTP client a database
+service brings along -/
+def specNames (k : Kind) (n : NodeCfg) : List String :=
+  dedupNames ((systemSoftware k).map (·.1) ++ (n.services ++ n.applications).map (·.type)
+    ++ (if n.services.any (·.type = "database-service") then ["ftp-client"] else []))
+
+/-- what the file says about software `name`: the LAST entry that names it counts — an `applications:` entry if there is one
+(applications are installed after services), else a `services:` entry, else the bare pre-installed / brought-along software -/
+def specSoftwareOf (d : DefaultsCfg) (p : Power) (k : Kind) (n : NodeCfg) (name : String) : SoftInv :=
+  let started (h : Health) : Health := if p = .on ∧ h = .unused then .good else h
+  match lastCfg name n.applications with
+  | some c =>
+    { name := name, isApp := true, live := 1, opts := c.opts.map (fun e => (e.1, some e.2)),
+      running := decide (p = .on), health := started (c.health.getD .good) }
+  | none =>
+    match lastCfg name n.services with
+    | some c =>
+      { name := name, isApp := false, live := 1, opts := c.opts.map (fun e => (e.1, some e.2)),
+        running := decide (p = .on), health := started (c.health.getD .good),
+        -- the defaults section speaks of services: a fixing duration for those that give none, a restart duration for all
+        imposedFix := if (alookup "fixing_duration" c.opts).isSome then none else d.svcFix,
+        imposedRestart := d.svcRestart }
+    | none =>
+      { name := name, isApp := (alookup name (systemSoftware k)).getD false, live := 1, opts := [],
+        running := decide (p = .on), health := started .good }
+
+def specSoftware (d : DefaultsCfg) (p : Power) (k : Kind) (n : NodeCfg) : List SoftInv :=
+  (specNames k n).map (specSoftwareOf d p k n)
+
+def blankIf : IfCfg := { ip := 0#32, mask := none }
+
+/-- extra NICs of a host: NIC number `k` (2, 3, …) carries the entry the file gives under key `k` -/
+def specNics (m : Assoc Nat IfCfg) : List Nic :=
+  (List.range m.length).map fun j => nicOf ((alookup (j + 2) m).getD blankIf)
+
+def specNode (d : DefaultsCfg) (n : NodeCfg) : NodeInv :=
+  let base := declaredNode d n
+  { base with
+    software := specSoftware d (n.power.getD .on) n.kind n,
+    nics := match n.kind with
+      | .computer | .server | .printer => { name := none, ip := n.ip, mask := some (n.mask.getD defaultMask) } :: specNics n.nics
+      | _ => base.nics }
+
+def specNodes (s : Scenario) : List NodeInv :=
+  s.nodes.map (specNode s.defaults)
+    ++ s.nodeSets.flatMap fun c => (officeDeclared c).nodes.map fun o => specNode {} (officeNodeCfg c o)
+
+def spec (s : Scenario) : Inventory :=
+  { declared s with nodes := (specNodes s).map (declaredWiring ((declaredSetLinks s).map linkCfgOf ++ s.links)) }
 
 /-! ## episode schedules (`EpisodeListScheduler.__call__`) -/
 
